@@ -125,6 +125,39 @@ fn c12_two_soas_after_merge() -> bool {
     }
 }
 
+/// C02: an existing name (the apex, whatever NS records it carries) never yields a referral or a name error,
+/// and a missing name under an apex that carries NS records is a name error, not a referral.
+fn c02_apex_ns_referral() -> bool {
+    let apex = dn("example.");
+    let mut z = Zone::new(apex.clone(), Some(soa(1)));
+    z.insert(&apex, RecordTypeWithData::NS { nsdname: dn("ns.example.") }, 300);
+    z.insert(&dn("ns.example."), a_data("10.0.0.53"), 300);
+    let mut ok = true;
+    println!("input: zone example. with SOA, `example. NS ns.example.`, `ns.example. A 10.0.0.53`");
+    for (q, t, want) in [
+        ("example.", RecordType::A, "empty answer"),
+        ("example.", RecordType::SOA, "answer with the SOA"),
+        ("nope.example.", RecordType::A, "name error"),
+    ] {
+        let r = z.resolve(&dn(q), QueryType::Record(t));
+        let good = match (&r, want) {
+            (Some(ZoneResult::Answer { rrs }), "empty answer") => rrs.is_empty(),
+            (Some(ZoneResult::Answer { rrs }), "answer with the SOA") => rrs.len() == 1,
+            (Some(ZoneResult::NameError), "name error") => true,
+            _ => false,
+        };
+        let shown = match &r {
+            Some(ZoneResult::Delegation { ns_rrs }) => format!("Delegation ({} NS)", ns_rrs.len()),
+            Some(ZoneResult::Answer { rrs }) => format!("Answer ({} records)", rrs.len()),
+            Some(ZoneResult::NameError) => "NameError".to_string(),
+            other => format!("{other:?}"),
+        };
+        println!("question {q} {t}: required {want}; observed {shown}");
+        ok &= good;
+    }
+    ok
+}
+
 fn main() {
     let w = std::env::args().nth(1).unwrap_or_default();
     let ok = match w.as_str() {
@@ -132,6 +165,7 @@ fn main() {
         "c03_compressed_name_over_255" => c03_compressed_name_over_255(),
         "c12_wildcard_merge_dropped" => c12_wildcard_merge_dropped(),
         "c12_two_soas_after_merge" => c12_two_soas_after_merge(),
+        "c02_apex_ns_referral" => c02_apex_ns_referral(),
         _ => {
             eprintln!("unknown witness `{w}`");
             exit(2)
